@@ -99,11 +99,23 @@ def whole_state_obligation(rule, fname, out, atom, where):
         rule.require(not kw or all(v is None for v in kw.values()), f"{fname} norm {T.show(n, 2)}", "2-norm over all components", f"norm with options {kw}", where_of(n, where))
 
 
+def norm_scale_free(rule, fname, out, hom, where):
+    """jnp.linalg.norm squares its entries: a norm of a state-sized quantity overflows for |x| > 1e154 although the result would be representable."""
+    norms = [t for t in T.subterms(out) if isinstance(t, T.Term) and t.op == "linalg.vector_norm"]
+    if not norms:
+        rule.unknown(f"{fname} norms", "no Euclidean norm found", where)
+    for n in norms:
+        d = hom.deg(n.args[0])
+        rule.require(True if d in (0, "any") else (None if d is None else False), f"{fname} norm of {T.show(n.args[0], 2)}", f"argument has degree {d} in the state unit",
+                     f"the Euclidean norm is taken of a quantity of degree {d} in the state unit: its squares overflow for badly scaled states (1e300) although the norm is representable", where_of(n, where))
+
+
 def run(chk, S: Session):
     chk.assume("atol > 0, rtol >= 0, scale > 0, nugget > 0, error_contraction_rate >= 1, finite inputs")
     chk.trust("linalg.vector_norm(x) >= 0", "np.where(c, a, b) selects a where c holds and b elsewhere", "np.abs(x) >= 0")
     r1 = chk.rule("R-C18-1", "returned step > 0 and every denominator non-zero on the branch that selects it", floor=6)
     r2 = chk.rule("R-C18-2", "guards (jet-lifted fields, several initial values) and wiring of the second stage", floor=5)
+    r4 = chk.rule("R-C18-4", "overflow safety for badly scaled states: every Euclidean norm is taken of a quantity that is free of the state unit (tolerance-scaled or divided by its largest magnitude)", floor=5)
     r3 = chk.rule("R-C18-3", "the tolerance-aware heuristic is homogeneous of degree 0 in the unit of the state (all norms tolerance-scaled): "
                   "every +, -, max, min, comparison and selection combines equal degrees", floor=8)
     m = S.p.module(STEPINIT)
@@ -133,6 +145,7 @@ def run(chk, S: Session):
     vfc = mcalls(out, "vector_field", vf)
     r2.require(len(vfc) == 1 and vfc[0].kwargs.get("t") is A("t0"), "dt0 evaluates f at (u0, t0)", "one vector-field evaluation with the caller's kwargs", f"{[T.show(v, 3) for v in vfc]}", where)
     whole_state_obligation(r2, "dt0", out, A("u0"), where)
+    norm_scale_free(r4, "dt0", out, Hom({T.mk("tree.ravel", (A("u0"),)): 1, A("u0"): 1, scale: 0, nugget: 0, A("t0"): 0}), where)
     chk.sample({"function": "dt0", "value": T.show(out, 6), "interval": str(iv)})
     S.absorb(it)
 
@@ -192,6 +205,7 @@ def run(chk, S: Session):
     r3.require(True if d_out in (0,) else (None if d_out is None else False), "dt0_adaptive returned step is free of the state unit", f"degree {d_out}",
                f"returned step has degree {d_out} in the state unit" + (f" (not derived: {hom.unknown[:3]})" if d_out is None else ""), where)
     whole_state_obligation(r2, "dt0_adaptive", out, A("y0"), where)
+    norm_scale_free(r4, "dt0_adaptive", out, Hom({T.mk("tree.ravel", (A("y0"),)): 1, A("y0"): 1, atol: 1, rtol: 0, rate: 0, t0: 0}), where)
     # several initial values are rejected
     it2 = S.interp()
     f2 = it2.function_value(f"{STEPINIT}.dt0_adaptive")
